@@ -152,7 +152,7 @@ def build_workchain(block, tabs, name='GenChain', alias=False, required_output=F
                 fut.set_result(0)
                 self.to_context(extra=fut)      # an awaitable is registered, yet the value must stop the chain at once
                 return r[1]
-            return plumpy.ToContext() if r == 'T' else r
+            return (plumpy.ToContext() if f % 2 == 0 else {}) if r == 'T' else r        # an empty plain dict is an (empty) context assignment too
         # step signatures: `(self)`, a decorator-style wrapper `(self, *args, **kwargs)`, keyword-only extras - all take ONE
         # positional argument, self
         if f % 3 == 1:
